@@ -198,7 +198,13 @@ def checkBidi (f : Fields) (ans : Fields) (panicked : Bool) : Verdict :=
       let la := String.intercalate ";" (ps.map (fun p =>
         s!"{p.stop - p.start}:{String.intercalate "," ((slice l p.start p.stop).map toString)}"))
       let v := v.add (getF ans "LA" == la) "S:C17"
+      -- the convenience constructors (`BidiInfo::new`, `InitialInfo::new`, … — the entry points most properties
+      -- name) against the built-in source passed explicitly: a difference violates C12's last sentence AND makes
+      -- every answer above (computed through `new_with_data_source`) say nothing about `new`, so it counts for
+      -- whatever property the stream serves (`S:CONV` is relevant to every check); a panic is a C07 violation
       let v := v.add (getF ans "CONV" != "diff" && getF ans "CONV" != "PANIC") "S:C12"
+      let v := v.add (getF ans "CONV" != "diff" && getF ans "CONV" != "PANIC") "S:CONV"
+      let v := v.add (getF ans "CONV" != "PANIC") "S:C07"
       { v with stats := v.stats ++ s!" paras={ps.length} maxl={l.foldl max 0}" }
   else
     let m := paragraphBidiInfo ds t dflt
@@ -229,7 +235,13 @@ def checkBidi (f : Fields) (ans : Fields) (panicked : Bool) : Verdict :=
         else v
       let v := v.add (getF ans "DIR" == dirName (specDirection l)) "S:C17"
       let v := v.add (getF ans "HR" == "1" || !(l.any (· % 2 == 1))) "S:C17"
+      -- the convenience constructors (`BidiInfo::new`, `InitialInfo::new`, … — the entry points most properties
+      -- name) against the built-in source passed explicitly: a difference violates C12's last sentence AND makes
+      -- every answer above (computed through `new_with_data_source`) say nothing about `new`, so it counts for
+      -- whatever property the stream serves (`S:CONV` is relevant to every check); a panic is a C07 violation
       let v := v.add (getF ans "CONV" != "diff" && getF ans "CONV" != "PANIC") "S:C12"
+      let v := v.add (getF ans "CONV" != "diff" && getF ans "CONV" != "PANIC") "S:CONV"
+      let v := v.add (getF ans "CONV" != "PANIC") "S:C07"
       { v with stats := v.stats ++ s!" paras=1 maxl={l.foldl max 0}" }
 
 /-- visual order of code units described by runs: odd runs reversed -/
